@@ -133,6 +133,61 @@ def r19_1(ctx: Ctx, rep: Report) -> None:
                 )
 
 
+def sides_agree(ctx: Ctx, rep: Report, rid: str = "R19.9") -> None:
+    """The source and the destination stage split the same operators: an operator split on one side only leaves entries
+    that the conversion to a one-port-per-entry platform still has to refuse."""
+    rep.rule(rid)
+    sets: Dict[str, Set[str]] = {}
+    where_: Dict[str, Tuple[Func, ast.AST]] = {}
+    for sf in _stage_funcs(ctx):
+        for node, sd, lits, neg in _split_sites(sf):
+            if sd in ("src", "dst") and not neg:
+                sets.setdefault(sd, set()).update(str(x) for x in lits)
+                where_.setdefault(sd, (sf, node))
+    rep.instance()
+    if set(sets) == {"src", "dst"} and sets["src"] != sets["dst"]:
+        sf, node = where_["src"]
+        rep.violation("Ace.ungroup_ports", f"source splits {sorted(sets['src'])}, destination splits {sorted(sets['dst'])}", "the two sides do not split the same operators: a multi-port entry with the other operator stays unsplit on one side", where(sf, node), inp="permit tcp any neq 1 2 any")
+    elif set(sets) == {"src", "dst"}:
+        rep.ok("Ace.ungroup_ports: split sets", f"both sides split {sorted(sets['src'])}", where=where(*where_["src"]))
+    else:
+        rep.note(f"{rid} one stage serves both sides (nothing to compare)")
+
+
+def entries_not_keys(ctx: Ctx, rep: Report, rid: str = "R19.8", fixture: bool = False) -> int:
+    """Entries compare equal when their text is equal: a dict keyed by entries (or a set of them) merges two entries with
+    the same text but different notes, identifiers or attached group members - the last one wins at every position."""
+    rep.rule(rid)
+    hits = 0
+    n = 0
+    for f in ctx.prog.funcs:
+        if f.cls is None:
+            continue
+        for x in own_nodes(f.node):
+            key = None
+            if isinstance(x, ast.DictComp) and len(x.generators) >= 1:
+                g = x.generators[0]
+                if isinstance(g.target, ast.Name) and isinstance(x.key, ast.Name) and x.key.id == g.target.id and "items" in src(g.iter) and "self" in src(g.iter) and ".items()" not in src(g.iter):
+                    key = x
+            if isinstance(x, ast.SetComp) and len(x.generators) >= 1:
+                g = x.generators[0]
+                if isinstance(g.target, ast.Name) and isinstance(x.elt, ast.Name) and x.elt.id == g.target.id and "items" in src(g.iter) and "self" in src(g.iter) and ".items()" not in src(g.iter):
+                    key = x
+            if isinstance(x, ast.Call) and isinstance(x.func, ast.Name) and x.func.id in ("set", "frozenset") and len(x.args) == 1 and src(x.args[0]) in ("self._items", "self.items"):
+                key = x
+            if isinstance(x, ast.Call) and src(x.func) == "dict.fromkeys" and x.args and src(x.args[0]) in ("self._items", "self.items"):
+                key = x
+            if key is not None:
+                n += 1
+                hits += 1
+                rep.violation(f.qualname, snippet(key, 70), "the object's items are used as dict keys / set members: two entries with the same text are one key, so one of them is lost or put in the other's place", where(f, key), inp="a group holding two entries with identical text and different notes")
+    if not fixture:
+        rep.instance()
+        if hits == 0:
+            rep.ok("package", "no method keys a dict or a set by the object's own items", nontrivial=False)
+    return hits
+
+
 def _stage_call(e: ast.AST, up: Func, env: Optional[Dict[str, ast.AST]] = None) -> Optional[Tuple[str, str]]:
     """`<recv>.<helper>("srcport")` or `<local helper>(<recv>, "srcport")` -> (recv, 'src'|'dst').
     A local bound once to such a call (`_aces = ungroup(self, "srcport")`) stands for the call."""
@@ -547,6 +602,17 @@ def split_before_convert(ctx: Ctx, rep: Report, rid: str = "R19.5") -> None:
 
 def run(ctx: Ctx, rep: Report, tier: str) -> None:
     r19_1(ctx, rep)
+    sides_agree(ctx, rep)
+    entries_not_keys(ctx, rep)
+    from ..fixtures import run_fixture
+
+    run_fixture("carried", lambda c, r: entries_not_keys(c, r, fixture=True), expect_violation="dict keys")
+    # R19.10 the split is computed from the ports as they are now: no "already split" flag is kept (C17 R17.5)
+    from .c17 import carried_flags
+
+    sub17 = Report("C19")
+    carried_flags(ctx, sub17)
+    rep.absorb(sub17, "R19.10")
     r19_2(ctx, rep)
     r19_3(ctx, rep)
     splice_rule(ctx, rep, "AceGroup.ungroup_ports")
